@@ -64,7 +64,13 @@ ItemExpression * ItemExpression::parse(Parser& p, Context& ctx, Expression * exp
   TokenPtr t = p.pop();
   if (t->code != TOKEN_INTEGER)
     throw ParseError(EXC_PARSE_INV_EXPRESSION, t);
-  unsigned item_no = (unsigned)std::stoul(t->text, nullptr, 10);
+  /* the rank must fit: no wrap around, no foreign exception */
+  unsigned long item_rank = 0;
+  try { item_rank = std::stoul(t->text, nullptr, 10); }
+  catch (std::out_of_range&) { item_rank = (unsigned long)(-1); }
+  if (item_rank > 0xffff)
+    throw ParseError(EXC_PARSE_OUT_OF_INDICE, t->text.c_str(), t);
+  unsigned item_no = (unsigned)item_rank;
   switch (exp_type.major())
   {
   case Type::NO_TYPE:
